@@ -251,6 +251,8 @@ structure Tracker where
   enter : TI → NodeView → TI
   leave : TI → NodeView → TI
   leaveOnSkip : Bool
+  /-- seeded variant C14-4: the Leave wrapper calls `TypeInfo.Leave` only inside `if fn != nil` -/
+  leaveNeedsHandler : Bool := false
 
 /-- the code as it is now -/
 def M (s : Schema) : Tracker := { enter := tiEnter s, leave := tiLeave, leaveOnSkip := true }
@@ -273,6 +275,72 @@ def visitList (T : Tracker) (v : Inner σ) : List TNode → TI → σ → TI × 
     match visit T v n ti st with
     | (ti1, st1) => visitList T v ns ti1 st1
 end
+
+/-! ### The wrapped visitor as `*VisitorOptions`: callbacks may be ABSENT (`GetVisitFn(...) == nil`)
+
+`VisitWithTypeInfo` asks `GetVisitFn(visitorOpts, kind, isLeaving)` (visitor.go:750-791) for the wrapped function and
+calls `TypeInfo.Enter` / `TypeInfo.Leave` whether or not there is one. `Opts` is `VisitorOptions` (visitor.go:165-178),
+`getEnterFn` / `getLeaveFn` are `GetVisitFn` with its precedence KindFuncMap[kind]{Kind > Enter | Leave} > generic
+Enter / Leave > EnterKindMap / LeaveKindMap (an entry in KindFuncMap shadows the generic and the map forms even when the
+function asked for is nil). -/
+
+abbrev EnterFn (σ : Type) := σ → TIRec → σ × Bool
+abbrev LeaveFn (σ : Type) := σ → TIRec → σ
+
+/-- `NamedVisitFuncs` -/
+structure NamedFns (σ : Type) where
+  kind : Option (EnterFn σ)
+  leave : Option (LeaveFn σ)
+  enter : Option (EnterFn σ)
+
+/-- `VisitorOptions` (Go maps as functions into `Option`) -/
+structure Opts (σ : Type) where
+  kindFuncMap : String → Option (NamedFns σ)
+  enter : Option (EnterFn σ)
+  leave : Option (LeaveFn σ)
+  enterKindMap : String → Option (EnterFn σ)
+  leaveKindMap : String → Option (LeaveFn σ)
+
+/-- `GetVisitFn(opts, kind, false)` -/
+def getEnterFn (o : Opts σ) (kind : String) : Option (EnterFn σ) :=
+  match o.kindFuncMap kind with
+  | some kv => (match kv.kind with | some f => some f | none => kv.enter)
+  | none => (match o.enter with | some f => some f | none => o.enterKindMap kind)
+
+/-- `GetVisitFn(opts, kind, true)` -/
+def getLeaveFn (o : Opts σ) (kind : String) : Option (LeaveFn σ) :=
+  match o.kindFuncMap kind with
+  | some kv => kv.leave
+  | none => (match o.leave with | some f => some f | none => o.leaveKindMap kind)
+
+/-- the total visitor an option set stands for: an absent function changes nothing and does not skip -/
+def Opts.total (o : Opts σ) : Inner σ where
+  enter := fun st r => match getEnterFn o r.kind with | some f => f st r | none => (st, false)
+  leave := fun st r => match getLeaveFn o r.kind with | some f => f st r | none => st
+
+mutual
+/-- `VisitWithTypeInfo(ti, opts)` as coded: `Enter(node)`; wrapped enter function if there is one (SKIP ⇒ `Leave`);
+children; wrapped leave function if there is one; `Leave(node)` in either case -/
+def visitO (T : Tracker) (o : Opts σ) : TNode → TI → σ → TI × σ
+  | .mk kind loc nv cs, ti, st =>
+    let ti1 := T.enter ti nv
+    match (match getEnterFn o kind with | some fn => fn st ⟨kind, loc, regs ti1⟩ | none => (st, false)) with
+    | (st1, true) => (if T.leaveOnSkip then T.leave ti1 nv else ti1, st1)
+    | (st1, false) =>
+      match visitListO T o cs ti1 st1 with
+      | (ti2, st2) =>
+        match getLeaveFn o kind with
+        | some fn => (T.leave ti2 nv, fn st2 ⟨kind, loc, regs ti2⟩)
+        | none => (if T.leaveNeedsHandler then ti2 else T.leave ti2 nv, st2)
+def visitListO (T : Tracker) (o : Opts σ) : List TNode → TI → σ → TI × σ
+  | [], ti, st => (ti, st)
+  | n :: ns, ti, st =>
+    match visitO T o n ti st with
+    | (ti1, st1) => visitListO T o ns ti1 st1
+end
+
+/-- `visitor.Visit(doc, visitor.VisitWithTypeInfo(NewTypeInfo(schema), opts))` -/
+def walkMO (s : Schema) (o : Opts σ) (d : Document) (st : σ) : TI × σ := visitO (M s) o (docTree d) TI.empty st
 
 /-- `visitor.Visit(doc, visitor.VisitWithTypeInfo(NewTypeInfo(schema), v))`: final TypeInfo and visitor state -/
 def walkM (s : Schema) (v : Inner σ) (d : Document) (st : σ) : TI × σ := visit (M s) v (docTree d) TI.empty st
@@ -321,6 +389,32 @@ def logger (pol : TIRec → Bool) : Inner (List TIRec) where
   leave := fun st _ => st
 
 def noSkip : TIRec → Bool := fun _ => false
+
+/-- an option set whose every present function logs (slot name, record); enter-type functions skip per `pol`.
+`generic = (Enter?, Leave?)`, `kf kind = some (Kind?, Enter?, Leave?)` for a KindFuncMap entry, `em` / `lm` the kinds in
+EnterKindMap / LeaveKindMap. Slot names: K KE KL (KindFuncMap), E L (generic), EM LM (kind maps). -/
+def loggerOpts (pol : TIRec → Bool) (generic : Bool × Bool) (kf : String → Option (Bool × Bool × Bool))
+    (em lm : String → Bool) : Opts (List (String × TIRec)) :=
+  let logE (slot : String) : EnterFn (List (String × TIRec)) := fun st r => (st ++ [(slot, r)], pol r)
+  let logL (slot : String) : LeaveFn (List (String × TIRec)) := fun st r => st ++ [(slot, r)]
+  { kindFuncMap := fun k => (kf k).map (fun b =>
+      { kind := if b.1 then some (logE "K") else none,
+        enter := if b.2.1 then some (logE "KE") else none,
+        leave := if b.2.2 then some (logL "KL") else none }),
+    enter := if generic.1 then some (logE "E") else none,
+    leave := if generic.2 then some (logL "L") else none,
+    enterKindMap := fun k => if em k then some (logE "EM") else none,
+    leaveKindMap := fun k => if lm k then some (logL "LM") else none }
+
+/-- the callbacks that fire, in order, with what the getters show, for a tracker and an option set -/
+def mEventsWith (T : Tracker) (o : Opts (List (String × TIRec))) (d : Document) : List (String × TIRec) :=
+  (visitO T o (docTree d) TI.empty []).2
+
+def mEvents (s : Schema) (o : Opts (List (String × TIRec))) (d : Document) : List (String × TIRec) := mEventsWith (M s) o d
+
+/-- `VisitorOptions{Enter: f}`: the enter-only generic visitor -/
+def enterOnly (f : EnterFn σ) : Opts σ :=
+  { kindFuncMap := fun _ => none, enter := some f, leave := none, enterKindMap := fun _ => none, leaveKindMap := fun _ => none }
 
 /-- what a wrapped visitor skipping per `pol` is shown by the real machine, node by node -/
 def mRecords (s : Schema) (pol : TIRec → Bool) (d : Document) : List TIRec := (walkM s (logger pol) d []).2
